@@ -12,7 +12,7 @@ import H8.Props.C02
 import H8.Props.C03
 import H8.Props.C04H
 namespace H8.Props.C07E
-open H8 H8.Spec H8.Props
+open H8 H8.Spec H8.Props H8.Lemmas
 
 theorem runLeaf_some (n : Nat) (l : Gen.Leaf) (op op2 : BitVec 16) (h : M (BitVec 8))
     (hl : leafHandler l op op2 = some h) : runLeaf (n + 1) l op op2 = h := by
@@ -1011,5 +1011,731 @@ theorem BILD_R_exec (w0 : BitVec 16) (st st' : Cpu) (c : BitVec 8) (i : Instr)
     st' = { st with regs := (specRegCcr i st).1, ccr := (specRegCcr i st).2 } := by
   rw [exec_eq_BILD_R w0 hp] at h
   exact C04H.BILD_R w0 st st' c i hp hi h
+
+/-! ### one whole instruction step: fetch, then exec -/
+
+theorem fetch_state (st s1 : Cpu) (op : BitVec 16) (hf : fetch st = .ok op s1) :
+    s1 = { st with opc := st.pc &&& ~~~1#32, pc := st.pc + 2 } := by
+  unfold fetch at hf
+  simp only at hf
+  split at hf
+  · simp only [Res.ok.injEq] at hf; exact hf.2.symm
+  · simp at hf
+
+theorem step_eq (st s1 : Cpu) (op : BitVec 16) (hf : fetch st = .ok op s1) : step st = exec op s1 := by
+  simp only [step, bind_ok, hf]
+
+/-- MOV_B_RR: one step consumes exactly the one instruction word (PC + 2) and leaves the Spec's registers and CCR -/
+theorem MOV_B_RR_step (st s1 st' : Cpu) (w0 : BitVec 16) (c : BitVec 8) (i : Instr)
+    (hf : fetch st = .ok w0 s1) (hp : Form.pat .MOV_B_RR w0 0 0 0 0 = true) (hi : instrOf .MOV_B_RR w0 0 0 0 0 = some i)
+    (h : step st = .ok c st') :
+    st' = { st with regs := (specRegCcr i s1).1, ccr := (specRegCcr i s1).2, opc := st.pc &&& ~~~1#32, pc := st.pc + 2 } := by
+  rw [step_eq st s1 w0 hf] at h
+  rw [MOV_B_RR_exec w0 s1 st' c i hp hi h, fetch_state st s1 w0 hf]
+
+/-- MOV_W_RR: one step consumes exactly the one instruction word (PC + 2) and leaves the Spec's registers and CCR -/
+theorem MOV_W_RR_step (st s1 st' : Cpu) (w0 : BitVec 16) (c : BitVec 8) (i : Instr)
+    (hf : fetch st = .ok w0 s1) (hp : Form.pat .MOV_W_RR w0 0 0 0 0 = true) (hi : instrOf .MOV_W_RR w0 0 0 0 0 = some i)
+    (h : step st = .ok c st') :
+    st' = { st with regs := (specRegCcr i s1).1, ccr := (specRegCcr i s1).2, opc := st.pc &&& ~~~1#32, pc := st.pc + 2 } := by
+  rw [step_eq st s1 w0 hf] at h
+  rw [MOV_W_RR_exec w0 s1 st' c i hp hi h, fetch_state st s1 w0 hf]
+
+/-- MOV_L_RR: one step consumes exactly the one instruction word (PC + 2) and leaves the Spec's registers and CCR -/
+theorem MOV_L_RR_step (st s1 st' : Cpu) (w0 : BitVec 16) (c : BitVec 8) (i : Instr)
+    (hf : fetch st = .ok w0 s1) (hp : Form.pat .MOV_L_RR w0 0 0 0 0 = true) (hi : instrOf .MOV_L_RR w0 0 0 0 0 = some i)
+    (h : step st = .ok c st') :
+    st' = { st with regs := (specRegCcr i s1).1, ccr := (specRegCcr i s1).2, opc := st.pc &&& ~~~1#32, pc := st.pc + 2 } := by
+  rw [step_eq st s1 w0 hf] at h
+  rw [MOV_L_RR_exec w0 s1 st' c i hp hi h, fetch_state st s1 w0 hf]
+
+/-- MOV_B_IMM: one step consumes exactly the one instruction word (PC + 2) and leaves the Spec's registers and CCR -/
+theorem MOV_B_IMM_step (st s1 st' : Cpu) (w0 : BitVec 16) (c : BitVec 8) (i : Instr)
+    (hf : fetch st = .ok w0 s1) (hp : Form.pat .MOV_B_IMM w0 0 0 0 0 = true) (hi : instrOf .MOV_B_IMM w0 0 0 0 0 = some i)
+    (h : step st = .ok c st') :
+    st' = { st with regs := (specRegCcr i s1).1, ccr := (specRegCcr i s1).2, opc := st.pc &&& ~~~1#32, pc := st.pc + 2 } := by
+  rw [step_eq st s1 w0 hf] at h
+  rw [MOV_B_IMM_exec w0 s1 st' c i hp hi h, fetch_state st s1 w0 hf]
+
+/-- ADD_B_RR: one step consumes exactly the one instruction word (PC + 2) and leaves the Spec's registers and CCR -/
+theorem ADD_B_RR_step (st s1 st' : Cpu) (w0 : BitVec 16) (c : BitVec 8) (i : Instr)
+    (hf : fetch st = .ok w0 s1) (hp : Form.pat .ADD_B_RR w0 0 0 0 0 = true) (hi : instrOf .ADD_B_RR w0 0 0 0 0 = some i)
+    (h : step st = .ok c st') :
+    st' = { st with regs := (specRegCcr i s1).1, ccr := (specRegCcr i s1).2, opc := st.pc &&& ~~~1#32, pc := st.pc + 2 } := by
+  rw [step_eq st s1 w0 hf] at h
+  rw [ADD_B_RR_exec w0 s1 st' c i hp hi h, fetch_state st s1 w0 hf]
+
+/-- ADD_W_RR: one step consumes exactly the one instruction word (PC + 2) and leaves the Spec's registers and CCR -/
+theorem ADD_W_RR_step (st s1 st' : Cpu) (w0 : BitVec 16) (c : BitVec 8) (i : Instr)
+    (hf : fetch st = .ok w0 s1) (hp : Form.pat .ADD_W_RR w0 0 0 0 0 = true) (hi : instrOf .ADD_W_RR w0 0 0 0 0 = some i)
+    (h : step st = .ok c st') :
+    st' = { st with regs := (specRegCcr i s1).1, ccr := (specRegCcr i s1).2, opc := st.pc &&& ~~~1#32, pc := st.pc + 2 } := by
+  rw [step_eq st s1 w0 hf] at h
+  rw [ADD_W_RR_exec w0 s1 st' c i hp hi h, fetch_state st s1 w0 hf]
+
+/-- SUB_B_RR: one step consumes exactly the one instruction word (PC + 2) and leaves the Spec's registers and CCR -/
+theorem SUB_B_RR_step (st s1 st' : Cpu) (w0 : BitVec 16) (c : BitVec 8) (i : Instr)
+    (hf : fetch st = .ok w0 s1) (hp : Form.pat .SUB_B_RR w0 0 0 0 0 = true) (hi : instrOf .SUB_B_RR w0 0 0 0 0 = some i)
+    (h : step st = .ok c st') :
+    st' = { st with regs := (specRegCcr i s1).1, ccr := (specRegCcr i s1).2, opc := st.pc &&& ~~~1#32, pc := st.pc + 2 } := by
+  rw [step_eq st s1 w0 hf] at h
+  rw [SUB_B_RR_exec w0 s1 st' c i hp hi h, fetch_state st s1 w0 hf]
+
+/-- SUB_W_RR: one step consumes exactly the one instruction word (PC + 2) and leaves the Spec's registers and CCR -/
+theorem SUB_W_RR_step (st s1 st' : Cpu) (w0 : BitVec 16) (c : BitVec 8) (i : Instr)
+    (hf : fetch st = .ok w0 s1) (hp : Form.pat .SUB_W_RR w0 0 0 0 0 = true) (hi : instrOf .SUB_W_RR w0 0 0 0 0 = some i)
+    (h : step st = .ok c st') :
+    st' = { st with regs := (specRegCcr i s1).1, ccr := (specRegCcr i s1).2, opc := st.pc &&& ~~~1#32, pc := st.pc + 2 } := by
+  rw [step_eq st s1 w0 hf] at h
+  rw [SUB_W_RR_exec w0 s1 st' c i hp hi h, fetch_state st s1 w0 hf]
+
+/-- CMP_B_RR: one step consumes exactly the one instruction word (PC + 2) and leaves the Spec's registers and CCR -/
+theorem CMP_B_RR_step (st s1 st' : Cpu) (w0 : BitVec 16) (c : BitVec 8) (i : Instr)
+    (hf : fetch st = .ok w0 s1) (hp : Form.pat .CMP_B_RR w0 0 0 0 0 = true) (hi : instrOf .CMP_B_RR w0 0 0 0 0 = some i)
+    (h : step st = .ok c st') :
+    st' = { st with regs := (specRegCcr i s1).1, ccr := (specRegCcr i s1).2, opc := st.pc &&& ~~~1#32, pc := st.pc + 2 } := by
+  rw [step_eq st s1 w0 hf] at h
+  rw [CMP_B_RR_exec w0 s1 st' c i hp hi h, fetch_state st s1 w0 hf]
+
+/-- CMP_W_RR: one step consumes exactly the one instruction word (PC + 2) and leaves the Spec's registers and CCR -/
+theorem CMP_W_RR_step (st s1 st' : Cpu) (w0 : BitVec 16) (c : BitVec 8) (i : Instr)
+    (hf : fetch st = .ok w0 s1) (hp : Form.pat .CMP_W_RR w0 0 0 0 0 = true) (hi : instrOf .CMP_W_RR w0 0 0 0 0 = some i)
+    (h : step st = .ok c st') :
+    st' = { st with regs := (specRegCcr i s1).1, ccr := (specRegCcr i s1).2, opc := st.pc &&& ~~~1#32, pc := st.pc + 2 } := by
+  rw [step_eq st s1 w0 hf] at h
+  rw [CMP_W_RR_exec w0 s1 st' c i hp hi h, fetch_state st s1 w0 hf]
+
+/-- ADDX_RR: one step consumes exactly the one instruction word (PC + 2) and leaves the Spec's registers and CCR -/
+theorem ADDX_RR_step (st s1 st' : Cpu) (w0 : BitVec 16) (c : BitVec 8) (i : Instr)
+    (hf : fetch st = .ok w0 s1) (hp : Form.pat .ADDX_RR w0 0 0 0 0 = true) (hi : instrOf .ADDX_RR w0 0 0 0 0 = some i)
+    (h : step st = .ok c st') :
+    st' = { st with regs := (specRegCcr i s1).1, ccr := (specRegCcr i s1).2, opc := st.pc &&& ~~~1#32, pc := st.pc + 2 } := by
+  rw [step_eq st s1 w0 hf] at h
+  rw [ADDX_RR_exec w0 s1 st' c i hp hi h, fetch_state st s1 w0 hf]
+
+/-- ADD_L_RR: one step consumes exactly the one instruction word (PC + 2) and leaves the Spec's registers and CCR -/
+theorem ADD_L_RR_step (st s1 st' : Cpu) (w0 : BitVec 16) (c : BitVec 8) (i : Instr)
+    (hf : fetch st = .ok w0 s1) (hp : Form.pat .ADD_L_RR w0 0 0 0 0 = true) (hi : instrOf .ADD_L_RR w0 0 0 0 0 = some i)
+    (h : step st = .ok c st') :
+    st' = { st with regs := (specRegCcr i s1).1, ccr := (specRegCcr i s1).2, opc := st.pc &&& ~~~1#32, pc := st.pc + 2 } := by
+  rw [step_eq st s1 w0 hf] at h
+  rw [ADD_L_RR_exec w0 s1 st' c i hp hi h, fetch_state st s1 w0 hf]
+
+/-- SUB_L_RR: one step consumes exactly the one instruction word (PC + 2) and leaves the Spec's registers and CCR -/
+theorem SUB_L_RR_step (st s1 st' : Cpu) (w0 : BitVec 16) (c : BitVec 8) (i : Instr)
+    (hf : fetch st = .ok w0 s1) (hp : Form.pat .SUB_L_RR w0 0 0 0 0 = true) (hi : instrOf .SUB_L_RR w0 0 0 0 0 = some i)
+    (h : step st = .ok c st') :
+    st' = { st with regs := (specRegCcr i s1).1, ccr := (specRegCcr i s1).2, opc := st.pc &&& ~~~1#32, pc := st.pc + 2 } := by
+  rw [step_eq st s1 w0 hf] at h
+  rw [SUB_L_RR_exec w0 s1 st' c i hp hi h, fetch_state st s1 w0 hf]
+
+/-- CMP_L_RR: one step consumes exactly the one instruction word (PC + 2) and leaves the Spec's registers and CCR -/
+theorem CMP_L_RR_step (st s1 st' : Cpu) (w0 : BitVec 16) (c : BitVec 8) (i : Instr)
+    (hf : fetch st = .ok w0 s1) (hp : Form.pat .CMP_L_RR w0 0 0 0 0 = true) (hi : instrOf .CMP_L_RR w0 0 0 0 0 = some i)
+    (h : step st = .ok c st') :
+    st' = { st with regs := (specRegCcr i s1).1, ccr := (specRegCcr i s1).2, opc := st.pc &&& ~~~1#32, pc := st.pc + 2 } := by
+  rw [step_eq st s1 w0 hf] at h
+  rw [CMP_L_RR_exec w0 s1 st' c i hp hi h, fetch_state st s1 w0 hf]
+
+/-- ADD_B_IMM: one step consumes exactly the one instruction word (PC + 2) and leaves the Spec's registers and CCR -/
+theorem ADD_B_IMM_step (st s1 st' : Cpu) (w0 : BitVec 16) (c : BitVec 8) (i : Instr)
+    (hf : fetch st = .ok w0 s1) (hp : Form.pat .ADD_B_IMM w0 0 0 0 0 = true) (hi : instrOf .ADD_B_IMM w0 0 0 0 0 = some i)
+    (h : step st = .ok c st') :
+    st' = { st with regs := (specRegCcr i s1).1, ccr := (specRegCcr i s1).2, opc := st.pc &&& ~~~1#32, pc := st.pc + 2 } := by
+  rw [step_eq st s1 w0 hf] at h
+  rw [ADD_B_IMM_exec w0 s1 st' c i hp hi h, fetch_state st s1 w0 hf]
+
+/-- CMP_B_IMM: one step consumes exactly the one instruction word (PC + 2) and leaves the Spec's registers and CCR -/
+theorem CMP_B_IMM_step (st s1 st' : Cpu) (w0 : BitVec 16) (c : BitVec 8) (i : Instr)
+    (hf : fetch st = .ok w0 s1) (hp : Form.pat .CMP_B_IMM w0 0 0 0 0 = true) (hi : instrOf .CMP_B_IMM w0 0 0 0 0 = some i)
+    (h : step st = .ok c st') :
+    st' = { st with regs := (specRegCcr i s1).1, ccr := (specRegCcr i s1).2, opc := st.pc &&& ~~~1#32, pc := st.pc + 2 } := by
+  rw [step_eq st s1 w0 hf] at h
+  rw [CMP_B_IMM_exec w0 s1 st' c i hp hi h, fetch_state st s1 w0 hf]
+
+/-- ADDX_IMM: one step consumes exactly the one instruction word (PC + 2) and leaves the Spec's registers and CCR -/
+theorem ADDX_IMM_step (st s1 st' : Cpu) (w0 : BitVec 16) (c : BitVec 8) (i : Instr)
+    (hf : fetch st = .ok w0 s1) (hp : Form.pat .ADDX_IMM w0 0 0 0 0 = true) (hi : instrOf .ADDX_IMM w0 0 0 0 0 = some i)
+    (h : step st = .ok c st') :
+    st' = { st with regs := (specRegCcr i s1).1, ccr := (specRegCcr i s1).2, opc := st.pc &&& ~~~1#32, pc := st.pc + 2 } := by
+  rw [step_eq st s1 w0 hf] at h
+  rw [ADDX_IMM_exec w0 s1 st' c i hp hi h, fetch_state st s1 w0 hf]
+
+/-- ADDS_1: one step consumes exactly the one instruction word (PC + 2) and leaves the Spec's registers and CCR -/
+theorem ADDS_1_step (st s1 st' : Cpu) (w0 : BitVec 16) (c : BitVec 8) (i : Instr)
+    (hf : fetch st = .ok w0 s1) (hp : Form.pat .ADDS_1 w0 0 0 0 0 = true) (hi : instrOf .ADDS_1 w0 0 0 0 0 = some i)
+    (h : step st = .ok c st') :
+    st' = { st with regs := (specRegCcr i s1).1, ccr := (specRegCcr i s1).2, opc := st.pc &&& ~~~1#32, pc := st.pc + 2 } := by
+  rw [step_eq st s1 w0 hf] at h
+  rw [ADDS_1_exec w0 s1 st' c i hp hi h, fetch_state st s1 w0 hf]
+
+/-- ADDS_2: one step consumes exactly the one instruction word (PC + 2) and leaves the Spec's registers and CCR -/
+theorem ADDS_2_step (st s1 st' : Cpu) (w0 : BitVec 16) (c : BitVec 8) (i : Instr)
+    (hf : fetch st = .ok w0 s1) (hp : Form.pat .ADDS_2 w0 0 0 0 0 = true) (hi : instrOf .ADDS_2 w0 0 0 0 0 = some i)
+    (h : step st = .ok c st') :
+    st' = { st with regs := (specRegCcr i s1).1, ccr := (specRegCcr i s1).2, opc := st.pc &&& ~~~1#32, pc := st.pc + 2 } := by
+  rw [step_eq st s1 w0 hf] at h
+  rw [ADDS_2_exec w0 s1 st' c i hp hi h, fetch_state st s1 w0 hf]
+
+/-- ADDS_4: one step consumes exactly the one instruction word (PC + 2) and leaves the Spec's registers and CCR -/
+theorem ADDS_4_step (st s1 st' : Cpu) (w0 : BitVec 16) (c : BitVec 8) (i : Instr)
+    (hf : fetch st = .ok w0 s1) (hp : Form.pat .ADDS_4 w0 0 0 0 0 = true) (hi : instrOf .ADDS_4 w0 0 0 0 0 = some i)
+    (h : step st = .ok c st') :
+    st' = { st with regs := (specRegCcr i s1).1, ccr := (specRegCcr i s1).2, opc := st.pc &&& ~~~1#32, pc := st.pc + 2 } := by
+  rw [step_eq st s1 w0 hf] at h
+  rw [ADDS_4_exec w0 s1 st' c i hp hi h, fetch_state st s1 w0 hf]
+
+/-- SUBS_1: one step consumes exactly the one instruction word (PC + 2) and leaves the Spec's registers and CCR -/
+theorem SUBS_1_step (st s1 st' : Cpu) (w0 : BitVec 16) (c : BitVec 8) (i : Instr)
+    (hf : fetch st = .ok w0 s1) (hp : Form.pat .SUBS_1 w0 0 0 0 0 = true) (hi : instrOf .SUBS_1 w0 0 0 0 0 = some i)
+    (h : step st = .ok c st') :
+    st' = { st with regs := (specRegCcr i s1).1, ccr := (specRegCcr i s1).2, opc := st.pc &&& ~~~1#32, pc := st.pc + 2 } := by
+  rw [step_eq st s1 w0 hf] at h
+  rw [SUBS_1_exec w0 s1 st' c i hp hi h, fetch_state st s1 w0 hf]
+
+/-- SUBS_2: one step consumes exactly the one instruction word (PC + 2) and leaves the Spec's registers and CCR -/
+theorem SUBS_2_step (st s1 st' : Cpu) (w0 : BitVec 16) (c : BitVec 8) (i : Instr)
+    (hf : fetch st = .ok w0 s1) (hp : Form.pat .SUBS_2 w0 0 0 0 0 = true) (hi : instrOf .SUBS_2 w0 0 0 0 0 = some i)
+    (h : step st = .ok c st') :
+    st' = { st with regs := (specRegCcr i s1).1, ccr := (specRegCcr i s1).2, opc := st.pc &&& ~~~1#32, pc := st.pc + 2 } := by
+  rw [step_eq st s1 w0 hf] at h
+  rw [SUBS_2_exec w0 s1 st' c i hp hi h, fetch_state st s1 w0 hf]
+
+/-- SUBS_4: one step consumes exactly the one instruction word (PC + 2) and leaves the Spec's registers and CCR -/
+theorem SUBS_4_step (st s1 st' : Cpu) (w0 : BitVec 16) (c : BitVec 8) (i : Instr)
+    (hf : fetch st = .ok w0 s1) (hp : Form.pat .SUBS_4 w0 0 0 0 0 = true) (hi : instrOf .SUBS_4 w0 0 0 0 0 = some i)
+    (h : step st = .ok c st') :
+    st' = { st with regs := (specRegCcr i s1).1, ccr := (specRegCcr i s1).2, opc := st.pc &&& ~~~1#32, pc := st.pc + 2 } := by
+  rw [step_eq st s1 w0 hf] at h
+  rw [SUBS_4_exec w0 s1 st' c i hp hi h, fetch_state st s1 w0 hf]
+
+/-- INC_B: one step consumes exactly the one instruction word (PC + 2) and leaves the Spec's registers and CCR -/
+theorem INC_B_step (st s1 st' : Cpu) (w0 : BitVec 16) (c : BitVec 8) (i : Instr)
+    (hf : fetch st = .ok w0 s1) (hp : Form.pat .INC_B w0 0 0 0 0 = true) (hi : instrOf .INC_B w0 0 0 0 0 = some i)
+    (h : step st = .ok c st') :
+    st' = { st with regs := (specRegCcr i s1).1, ccr := (specRegCcr i s1).2, opc := st.pc &&& ~~~1#32, pc := st.pc + 2 } := by
+  rw [step_eq st s1 w0 hf] at h
+  rw [INC_B_exec w0 s1 st' c i hp hi h, fetch_state st s1 w0 hf]
+
+/-- INC_W_1: one step consumes exactly the one instruction word (PC + 2) and leaves the Spec's registers and CCR -/
+theorem INC_W_1_step (st s1 st' : Cpu) (w0 : BitVec 16) (c : BitVec 8) (i : Instr)
+    (hf : fetch st = .ok w0 s1) (hp : Form.pat .INC_W_1 w0 0 0 0 0 = true) (hi : instrOf .INC_W_1 w0 0 0 0 0 = some i)
+    (h : step st = .ok c st') :
+    st' = { st with regs := (specRegCcr i s1).1, ccr := (specRegCcr i s1).2, opc := st.pc &&& ~~~1#32, pc := st.pc + 2 } := by
+  rw [step_eq st s1 w0 hf] at h
+  rw [INC_W_1_exec w0 s1 st' c i hp hi h, fetch_state st s1 w0 hf]
+
+/-- INC_W_2: one step consumes exactly the one instruction word (PC + 2) and leaves the Spec's registers and CCR -/
+theorem INC_W_2_step (st s1 st' : Cpu) (w0 : BitVec 16) (c : BitVec 8) (i : Instr)
+    (hf : fetch st = .ok w0 s1) (hp : Form.pat .INC_W_2 w0 0 0 0 0 = true) (hi : instrOf .INC_W_2 w0 0 0 0 0 = some i)
+    (h : step st = .ok c st') :
+    st' = { st with regs := (specRegCcr i s1).1, ccr := (specRegCcr i s1).2, opc := st.pc &&& ~~~1#32, pc := st.pc + 2 } := by
+  rw [step_eq st s1 w0 hf] at h
+  rw [INC_W_2_exec w0 s1 st' c i hp hi h, fetch_state st s1 w0 hf]
+
+/-- INC_L_1: one step consumes exactly the one instruction word (PC + 2) and leaves the Spec's registers and CCR -/
+theorem INC_L_1_step (st s1 st' : Cpu) (w0 : BitVec 16) (c : BitVec 8) (i : Instr)
+    (hf : fetch st = .ok w0 s1) (hp : Form.pat .INC_L_1 w0 0 0 0 0 = true) (hi : instrOf .INC_L_1 w0 0 0 0 0 = some i)
+    (h : step st = .ok c st') :
+    st' = { st with regs := (specRegCcr i s1).1, ccr := (specRegCcr i s1).2, opc := st.pc &&& ~~~1#32, pc := st.pc + 2 } := by
+  rw [step_eq st s1 w0 hf] at h
+  rw [INC_L_1_exec w0 s1 st' c i hp hi h, fetch_state st s1 w0 hf]
+
+/-- INC_L_2: one step consumes exactly the one instruction word (PC + 2) and leaves the Spec's registers and CCR -/
+theorem INC_L_2_step (st s1 st' : Cpu) (w0 : BitVec 16) (c : BitVec 8) (i : Instr)
+    (hf : fetch st = .ok w0 s1) (hp : Form.pat .INC_L_2 w0 0 0 0 0 = true) (hi : instrOf .INC_L_2 w0 0 0 0 0 = some i)
+    (h : step st = .ok c st') :
+    st' = { st with regs := (specRegCcr i s1).1, ccr := (specRegCcr i s1).2, opc := st.pc &&& ~~~1#32, pc := st.pc + 2 } := by
+  rw [step_eq st s1 w0 hf] at h
+  rw [INC_L_2_exec w0 s1 st' c i hp hi h, fetch_state st s1 w0 hf]
+
+/-- DEC_B: one step consumes exactly the one instruction word (PC + 2) and leaves the Spec's registers and CCR -/
+theorem DEC_B_step (st s1 st' : Cpu) (w0 : BitVec 16) (c : BitVec 8) (i : Instr)
+    (hf : fetch st = .ok w0 s1) (hp : Form.pat .DEC_B w0 0 0 0 0 = true) (hi : instrOf .DEC_B w0 0 0 0 0 = some i)
+    (h : step st = .ok c st') :
+    st' = { st with regs := (specRegCcr i s1).1, ccr := (specRegCcr i s1).2, opc := st.pc &&& ~~~1#32, pc := st.pc + 2 } := by
+  rw [step_eq st s1 w0 hf] at h
+  rw [DEC_B_exec w0 s1 st' c i hp hi h, fetch_state st s1 w0 hf]
+
+/-- DEC_W_1: one step consumes exactly the one instruction word (PC + 2) and leaves the Spec's registers and CCR -/
+theorem DEC_W_1_step (st s1 st' : Cpu) (w0 : BitVec 16) (c : BitVec 8) (i : Instr)
+    (hf : fetch st = .ok w0 s1) (hp : Form.pat .DEC_W_1 w0 0 0 0 0 = true) (hi : instrOf .DEC_W_1 w0 0 0 0 0 = some i)
+    (h : step st = .ok c st') :
+    st' = { st with regs := (specRegCcr i s1).1, ccr := (specRegCcr i s1).2, opc := st.pc &&& ~~~1#32, pc := st.pc + 2 } := by
+  rw [step_eq st s1 w0 hf] at h
+  rw [DEC_W_1_exec w0 s1 st' c i hp hi h, fetch_state st s1 w0 hf]
+
+/-- DEC_W_2: one step consumes exactly the one instruction word (PC + 2) and leaves the Spec's registers and CCR -/
+theorem DEC_W_2_step (st s1 st' : Cpu) (w0 : BitVec 16) (c : BitVec 8) (i : Instr)
+    (hf : fetch st = .ok w0 s1) (hp : Form.pat .DEC_W_2 w0 0 0 0 0 = true) (hi : instrOf .DEC_W_2 w0 0 0 0 0 = some i)
+    (h : step st = .ok c st') :
+    st' = { st with regs := (specRegCcr i s1).1, ccr := (specRegCcr i s1).2, opc := st.pc &&& ~~~1#32, pc := st.pc + 2 } := by
+  rw [step_eq st s1 w0 hf] at h
+  rw [DEC_W_2_exec w0 s1 st' c i hp hi h, fetch_state st s1 w0 hf]
+
+/-- DEC_L_1: one step consumes exactly the one instruction word (PC + 2) and leaves the Spec's registers and CCR -/
+theorem DEC_L_1_step (st s1 st' : Cpu) (w0 : BitVec 16) (c : BitVec 8) (i : Instr)
+    (hf : fetch st = .ok w0 s1) (hp : Form.pat .DEC_L_1 w0 0 0 0 0 = true) (hi : instrOf .DEC_L_1 w0 0 0 0 0 = some i)
+    (h : step st = .ok c st') :
+    st' = { st with regs := (specRegCcr i s1).1, ccr := (specRegCcr i s1).2, opc := st.pc &&& ~~~1#32, pc := st.pc + 2 } := by
+  rw [step_eq st s1 w0 hf] at h
+  rw [DEC_L_1_exec w0 s1 st' c i hp hi h, fetch_state st s1 w0 hf]
+
+/-- DEC_L_2: one step consumes exactly the one instruction word (PC + 2) and leaves the Spec's registers and CCR -/
+theorem DEC_L_2_step (st s1 st' : Cpu) (w0 : BitVec 16) (c : BitVec 8) (i : Instr)
+    (hf : fetch st = .ok w0 s1) (hp : Form.pat .DEC_L_2 w0 0 0 0 0 = true) (hi : instrOf .DEC_L_2 w0 0 0 0 0 = some i)
+    (h : step st = .ok c st') :
+    st' = { st with regs := (specRegCcr i s1).1, ccr := (specRegCcr i s1).2, opc := st.pc &&& ~~~1#32, pc := st.pc + 2 } := by
+  rw [step_eq st s1 w0 hf] at h
+  rw [DEC_L_2_exec w0 s1 st' c i hp hi h, fetch_state st s1 w0 hf]
+
+/-- NEG_B: one step consumes exactly the one instruction word (PC + 2) and leaves the Spec's registers and CCR -/
+theorem NEG_B_step (st s1 st' : Cpu) (w0 : BitVec 16) (c : BitVec 8) (i : Instr)
+    (hf : fetch st = .ok w0 s1) (hp : Form.pat .NEG_B w0 0 0 0 0 = true) (hi : instrOf .NEG_B w0 0 0 0 0 = some i)
+    (h : step st = .ok c st') :
+    st' = { st with regs := (specRegCcr i s1).1, ccr := (specRegCcr i s1).2, opc := st.pc &&& ~~~1#32, pc := st.pc + 2 } := by
+  rw [step_eq st s1 w0 hf] at h
+  rw [NEG_B_exec w0 s1 st' c i hp hi h, fetch_state st s1 w0 hf]
+
+/-- NEG_W: one step consumes exactly the one instruction word (PC + 2) and leaves the Spec's registers and CCR -/
+theorem NEG_W_step (st s1 st' : Cpu) (w0 : BitVec 16) (c : BitVec 8) (i : Instr)
+    (hf : fetch st = .ok w0 s1) (hp : Form.pat .NEG_W w0 0 0 0 0 = true) (hi : instrOf .NEG_W w0 0 0 0 0 = some i)
+    (h : step st = .ok c st') :
+    st' = { st with regs := (specRegCcr i s1).1, ccr := (specRegCcr i s1).2, opc := st.pc &&& ~~~1#32, pc := st.pc + 2 } := by
+  rw [step_eq st s1 w0 hf] at h
+  rw [NEG_W_exec w0 s1 st' c i hp hi h, fetch_state st s1 w0 hf]
+
+/-- NEG_L: one step consumes exactly the one instruction word (PC + 2) and leaves the Spec's registers and CCR -/
+theorem NEG_L_step (st s1 st' : Cpu) (w0 : BitVec 16) (c : BitVec 8) (i : Instr)
+    (hf : fetch st = .ok w0 s1) (hp : Form.pat .NEG_L w0 0 0 0 0 = true) (hi : instrOf .NEG_L w0 0 0 0 0 = some i)
+    (h : step st = .ok c st') :
+    st' = { st with regs := (specRegCcr i s1).1, ccr := (specRegCcr i s1).2, opc := st.pc &&& ~~~1#32, pc := st.pc + 2 } := by
+  rw [step_eq st s1 w0 hf] at h
+  rw [NEG_L_exec w0 s1 st' c i hp hi h, fetch_state st s1 w0 hf]
+
+/-- EXTU_W: one step consumes exactly the one instruction word (PC + 2) and leaves the Spec's registers and CCR -/
+theorem EXTU_W_step (st s1 st' : Cpu) (w0 : BitVec 16) (c : BitVec 8) (i : Instr)
+    (hf : fetch st = .ok w0 s1) (hp : Form.pat .EXTU_W w0 0 0 0 0 = true) (hi : instrOf .EXTU_W w0 0 0 0 0 = some i)
+    (h : step st = .ok c st') :
+    st' = { st with regs := (specRegCcr i s1).1, ccr := (specRegCcr i s1).2, opc := st.pc &&& ~~~1#32, pc := st.pc + 2 } := by
+  rw [step_eq st s1 w0 hf] at h
+  rw [EXTU_W_exec w0 s1 st' c i hp hi h, fetch_state st s1 w0 hf]
+
+/-- EXTU_L: one step consumes exactly the one instruction word (PC + 2) and leaves the Spec's registers and CCR -/
+theorem EXTU_L_step (st s1 st' : Cpu) (w0 : BitVec 16) (c : BitVec 8) (i : Instr)
+    (hf : fetch st = .ok w0 s1) (hp : Form.pat .EXTU_L w0 0 0 0 0 = true) (hi : instrOf .EXTU_L w0 0 0 0 0 = some i)
+    (h : step st = .ok c st') :
+    st' = { st with regs := (specRegCcr i s1).1, ccr := (specRegCcr i s1).2, opc := st.pc &&& ~~~1#32, pc := st.pc + 2 } := by
+  rw [step_eq st s1 w0 hf] at h
+  rw [EXTU_L_exec w0 s1 st' c i hp hi h, fetch_state st s1 w0 hf]
+
+/-- SHLL_B: one step consumes exactly the one instruction word (PC + 2) and leaves the Spec's registers and CCR -/
+theorem SHLL_B_step (st s1 st' : Cpu) (w0 : BitVec 16) (c : BitVec 8) (i : Instr)
+    (hf : fetch st = .ok w0 s1) (hp : Form.pat .SHLL_B w0 0 0 0 0 = true) (hi : instrOf .SHLL_B w0 0 0 0 0 = some i)
+    (h : step st = .ok c st') :
+    st' = { st with regs := (specRegCcr i s1).1, ccr := (specRegCcr i s1).2, opc := st.pc &&& ~~~1#32, pc := st.pc + 2 } := by
+  rw [step_eq st s1 w0 hf] at h
+  rw [SHLL_B_exec w0 s1 st' c i hp hi h, fetch_state st s1 w0 hf]
+
+/-- SHLL_W: one step consumes exactly the one instruction word (PC + 2) and leaves the Spec's registers and CCR -/
+theorem SHLL_W_step (st s1 st' : Cpu) (w0 : BitVec 16) (c : BitVec 8) (i : Instr)
+    (hf : fetch st = .ok w0 s1) (hp : Form.pat .SHLL_W w0 0 0 0 0 = true) (hi : instrOf .SHLL_W w0 0 0 0 0 = some i)
+    (h : step st = .ok c st') :
+    st' = { st with regs := (specRegCcr i s1).1, ccr := (specRegCcr i s1).2, opc := st.pc &&& ~~~1#32, pc := st.pc + 2 } := by
+  rw [step_eq st s1 w0 hf] at h
+  rw [SHLL_W_exec w0 s1 st' c i hp hi h, fetch_state st s1 w0 hf]
+
+/-- SHLL_L: one step consumes exactly the one instruction word (PC + 2) and leaves the Spec's registers and CCR -/
+theorem SHLL_L_step (st s1 st' : Cpu) (w0 : BitVec 16) (c : BitVec 8) (i : Instr)
+    (hf : fetch st = .ok w0 s1) (hp : Form.pat .SHLL_L w0 0 0 0 0 = true) (hi : instrOf .SHLL_L w0 0 0 0 0 = some i)
+    (h : step st = .ok c st') :
+    st' = { st with regs := (specRegCcr i s1).1, ccr := (specRegCcr i s1).2, opc := st.pc &&& ~~~1#32, pc := st.pc + 2 } := by
+  rw [step_eq st s1 w0 hf] at h
+  rw [SHLL_L_exec w0 s1 st' c i hp hi h, fetch_state st s1 w0 hf]
+
+/-- SHLR_B: one step consumes exactly the one instruction word (PC + 2) and leaves the Spec's registers and CCR -/
+theorem SHLR_B_step (st s1 st' : Cpu) (w0 : BitVec 16) (c : BitVec 8) (i : Instr)
+    (hf : fetch st = .ok w0 s1) (hp : Form.pat .SHLR_B w0 0 0 0 0 = true) (hi : instrOf .SHLR_B w0 0 0 0 0 = some i)
+    (h : step st = .ok c st') :
+    st' = { st with regs := (specRegCcr i s1).1, ccr := (specRegCcr i s1).2, opc := st.pc &&& ~~~1#32, pc := st.pc + 2 } := by
+  rw [step_eq st s1 w0 hf] at h
+  rw [SHLR_B_exec w0 s1 st' c i hp hi h, fetch_state st s1 w0 hf]
+
+/-- SHLR_W: one step consumes exactly the one instruction word (PC + 2) and leaves the Spec's registers and CCR -/
+theorem SHLR_W_step (st s1 st' : Cpu) (w0 : BitVec 16) (c : BitVec 8) (i : Instr)
+    (hf : fetch st = .ok w0 s1) (hp : Form.pat .SHLR_W w0 0 0 0 0 = true) (hi : instrOf .SHLR_W w0 0 0 0 0 = some i)
+    (h : step st = .ok c st') :
+    st' = { st with regs := (specRegCcr i s1).1, ccr := (specRegCcr i s1).2, opc := st.pc &&& ~~~1#32, pc := st.pc + 2 } := by
+  rw [step_eq st s1 w0 hf] at h
+  rw [SHLR_W_exec w0 s1 st' c i hp hi h, fetch_state st s1 w0 hf]
+
+/-- SHLR_L: one step consumes exactly the one instruction word (PC + 2) and leaves the Spec's registers and CCR -/
+theorem SHLR_L_step (st s1 st' : Cpu) (w0 : BitVec 16) (c : BitVec 8) (i : Instr)
+    (hf : fetch st = .ok w0 s1) (hp : Form.pat .SHLR_L w0 0 0 0 0 = true) (hi : instrOf .SHLR_L w0 0 0 0 0 = some i)
+    (h : step st = .ok c st') :
+    st' = { st with regs := (specRegCcr i s1).1, ccr := (specRegCcr i s1).2, opc := st.pc &&& ~~~1#32, pc := st.pc + 2 } := by
+  rw [step_eq st s1 w0 hf] at h
+  rw [SHLR_L_exec w0 s1 st' c i hp hi h, fetch_state st s1 w0 hf]
+
+/-- SHAR_B: one step consumes exactly the one instruction word (PC + 2) and leaves the Spec's registers and CCR -/
+theorem SHAR_B_step (st s1 st' : Cpu) (w0 : BitVec 16) (c : BitVec 8) (i : Instr)
+    (hf : fetch st = .ok w0 s1) (hp : Form.pat .SHAR_B w0 0 0 0 0 = true) (hi : instrOf .SHAR_B w0 0 0 0 0 = some i)
+    (h : step st = .ok c st') :
+    st' = { st with regs := (specRegCcr i s1).1, ccr := (specRegCcr i s1).2, opc := st.pc &&& ~~~1#32, pc := st.pc + 2 } := by
+  rw [step_eq st s1 w0 hf] at h
+  rw [SHAR_B_exec w0 s1 st' c i hp hi h, fetch_state st s1 w0 hf]
+
+/-- SHAR_W: one step consumes exactly the one instruction word (PC + 2) and leaves the Spec's registers and CCR -/
+theorem SHAR_W_step (st s1 st' : Cpu) (w0 : BitVec 16) (c : BitVec 8) (i : Instr)
+    (hf : fetch st = .ok w0 s1) (hp : Form.pat .SHAR_W w0 0 0 0 0 = true) (hi : instrOf .SHAR_W w0 0 0 0 0 = some i)
+    (h : step st = .ok c st') :
+    st' = { st with regs := (specRegCcr i s1).1, ccr := (specRegCcr i s1).2, opc := st.pc &&& ~~~1#32, pc := st.pc + 2 } := by
+  rw [step_eq st s1 w0 hf] at h
+  rw [SHAR_W_exec w0 s1 st' c i hp hi h, fetch_state st s1 w0 hf]
+
+/-- SHAR_L: one step consumes exactly the one instruction word (PC + 2) and leaves the Spec's registers and CCR -/
+theorem SHAR_L_step (st s1 st' : Cpu) (w0 : BitVec 16) (c : BitVec 8) (i : Instr)
+    (hf : fetch st = .ok w0 s1) (hp : Form.pat .SHAR_L w0 0 0 0 0 = true) (hi : instrOf .SHAR_L w0 0 0 0 0 = some i)
+    (h : step st = .ok c st') :
+    st' = { st with regs := (specRegCcr i s1).1, ccr := (specRegCcr i s1).2, opc := st.pc &&& ~~~1#32, pc := st.pc + 2 } := by
+  rw [step_eq st s1 w0 hf] at h
+  rw [SHAR_L_exec w0 s1 st' c i hp hi h, fetch_state st s1 w0 hf]
+
+/-- ROTL_B: one step consumes exactly the one instruction word (PC + 2) and leaves the Spec's registers and CCR -/
+theorem ROTL_B_step (st s1 st' : Cpu) (w0 : BitVec 16) (c : BitVec 8) (i : Instr)
+    (hf : fetch st = .ok w0 s1) (hp : Form.pat .ROTL_B w0 0 0 0 0 = true) (hi : instrOf .ROTL_B w0 0 0 0 0 = some i)
+    (h : step st = .ok c st') :
+    st' = { st with regs := (specRegCcr i s1).1, ccr := (specRegCcr i s1).2, opc := st.pc &&& ~~~1#32, pc := st.pc + 2 } := by
+  rw [step_eq st s1 w0 hf] at h
+  rw [ROTL_B_exec w0 s1 st' c i hp hi h, fetch_state st s1 w0 hf]
+
+/-- ROTL_W: one step consumes exactly the one instruction word (PC + 2) and leaves the Spec's registers and CCR -/
+theorem ROTL_W_step (st s1 st' : Cpu) (w0 : BitVec 16) (c : BitVec 8) (i : Instr)
+    (hf : fetch st = .ok w0 s1) (hp : Form.pat .ROTL_W w0 0 0 0 0 = true) (hi : instrOf .ROTL_W w0 0 0 0 0 = some i)
+    (h : step st = .ok c st') :
+    st' = { st with regs := (specRegCcr i s1).1, ccr := (specRegCcr i s1).2, opc := st.pc &&& ~~~1#32, pc := st.pc + 2 } := by
+  rw [step_eq st s1 w0 hf] at h
+  rw [ROTL_W_exec w0 s1 st' c i hp hi h, fetch_state st s1 w0 hf]
+
+/-- ROTL_L: one step consumes exactly the one instruction word (PC + 2) and leaves the Spec's registers and CCR -/
+theorem ROTL_L_step (st s1 st' : Cpu) (w0 : BitVec 16) (c : BitVec 8) (i : Instr)
+    (hf : fetch st = .ok w0 s1) (hp : Form.pat .ROTL_L w0 0 0 0 0 = true) (hi : instrOf .ROTL_L w0 0 0 0 0 = some i)
+    (h : step st = .ok c st') :
+    st' = { st with regs := (specRegCcr i s1).1, ccr := (specRegCcr i s1).2, opc := st.pc &&& ~~~1#32, pc := st.pc + 2 } := by
+  rw [step_eq st s1 w0 hf] at h
+  rw [ROTL_L_exec w0 s1 st' c i hp hi h, fetch_state st s1 w0 hf]
+
+/-- ROTR_B: one step consumes exactly the one instruction word (PC + 2) and leaves the Spec's registers and CCR -/
+theorem ROTR_B_step (st s1 st' : Cpu) (w0 : BitVec 16) (c : BitVec 8) (i : Instr)
+    (hf : fetch st = .ok w0 s1) (hp : Form.pat .ROTR_B w0 0 0 0 0 = true) (hi : instrOf .ROTR_B w0 0 0 0 0 = some i)
+    (h : step st = .ok c st') :
+    st' = { st with regs := (specRegCcr i s1).1, ccr := (specRegCcr i s1).2, opc := st.pc &&& ~~~1#32, pc := st.pc + 2 } := by
+  rw [step_eq st s1 w0 hf] at h
+  rw [ROTR_B_exec w0 s1 st' c i hp hi h, fetch_state st s1 w0 hf]
+
+/-- ROTR_W: one step consumes exactly the one instruction word (PC + 2) and leaves the Spec's registers and CCR -/
+theorem ROTR_W_step (st s1 st' : Cpu) (w0 : BitVec 16) (c : BitVec 8) (i : Instr)
+    (hf : fetch st = .ok w0 s1) (hp : Form.pat .ROTR_W w0 0 0 0 0 = true) (hi : instrOf .ROTR_W w0 0 0 0 0 = some i)
+    (h : step st = .ok c st') :
+    st' = { st with regs := (specRegCcr i s1).1, ccr := (specRegCcr i s1).2, opc := st.pc &&& ~~~1#32, pc := st.pc + 2 } := by
+  rw [step_eq st s1 w0 hf] at h
+  rw [ROTR_W_exec w0 s1 st' c i hp hi h, fetch_state st s1 w0 hf]
+
+/-- ROTR_L: one step consumes exactly the one instruction word (PC + 2) and leaves the Spec's registers and CCR -/
+theorem ROTR_L_step (st s1 st' : Cpu) (w0 : BitVec 16) (c : BitVec 8) (i : Instr)
+    (hf : fetch st = .ok w0 s1) (hp : Form.pat .ROTR_L w0 0 0 0 0 = true) (hi : instrOf .ROTR_L w0 0 0 0 0 = some i)
+    (h : step st = .ok c st') :
+    st' = { st with regs := (specRegCcr i s1).1, ccr := (specRegCcr i s1).2, opc := st.pc &&& ~~~1#32, pc := st.pc + 2 } := by
+  rw [step_eq st s1 w0 hf] at h
+  rw [ROTR_L_exec w0 s1 st' c i hp hi h, fetch_state st s1 w0 hf]
+
+/-- ROTXL_B: one step consumes exactly the one instruction word (PC + 2) and leaves the Spec's registers and CCR -/
+theorem ROTXL_B_step (st s1 st' : Cpu) (w0 : BitVec 16) (c : BitVec 8) (i : Instr)
+    (hf : fetch st = .ok w0 s1) (hp : Form.pat .ROTXL_B w0 0 0 0 0 = true) (hi : instrOf .ROTXL_B w0 0 0 0 0 = some i)
+    (h : step st = .ok c st') :
+    st' = { st with regs := (specRegCcr i s1).1, ccr := (specRegCcr i s1).2, opc := st.pc &&& ~~~1#32, pc := st.pc + 2 } := by
+  rw [step_eq st s1 w0 hf] at h
+  rw [ROTXL_B_exec w0 s1 st' c i hp hi h, fetch_state st s1 w0 hf]
+
+/-- ROTXL_W: one step consumes exactly the one instruction word (PC + 2) and leaves the Spec's registers and CCR -/
+theorem ROTXL_W_step (st s1 st' : Cpu) (w0 : BitVec 16) (c : BitVec 8) (i : Instr)
+    (hf : fetch st = .ok w0 s1) (hp : Form.pat .ROTXL_W w0 0 0 0 0 = true) (hi : instrOf .ROTXL_W w0 0 0 0 0 = some i)
+    (h : step st = .ok c st') :
+    st' = { st with regs := (specRegCcr i s1).1, ccr := (specRegCcr i s1).2, opc := st.pc &&& ~~~1#32, pc := st.pc + 2 } := by
+  rw [step_eq st s1 w0 hf] at h
+  rw [ROTXL_W_exec w0 s1 st' c i hp hi h, fetch_state st s1 w0 hf]
+
+/-- ROTXL_L: one step consumes exactly the one instruction word (PC + 2) and leaves the Spec's registers and CCR -/
+theorem ROTXL_L_step (st s1 st' : Cpu) (w0 : BitVec 16) (c : BitVec 8) (i : Instr)
+    (hf : fetch st = .ok w0 s1) (hp : Form.pat .ROTXL_L w0 0 0 0 0 = true) (hi : instrOf .ROTXL_L w0 0 0 0 0 = some i)
+    (h : step st = .ok c st') :
+    st' = { st with regs := (specRegCcr i s1).1, ccr := (specRegCcr i s1).2, opc := st.pc &&& ~~~1#32, pc := st.pc + 2 } := by
+  rw [step_eq st s1 w0 hf] at h
+  rw [ROTXL_L_exec w0 s1 st' c i hp hi h, fetch_state st s1 w0 hf]
+
+/-- ROTXR_B: one step consumes exactly the one instruction word (PC + 2) and leaves the Spec's registers and CCR -/
+theorem ROTXR_B_step (st s1 st' : Cpu) (w0 : BitVec 16) (c : BitVec 8) (i : Instr)
+    (hf : fetch st = .ok w0 s1) (hp : Form.pat .ROTXR_B w0 0 0 0 0 = true) (hi : instrOf .ROTXR_B w0 0 0 0 0 = some i)
+    (h : step st = .ok c st') :
+    st' = { st with regs := (specRegCcr i s1).1, ccr := (specRegCcr i s1).2, opc := st.pc &&& ~~~1#32, pc := st.pc + 2 } := by
+  rw [step_eq st s1 w0 hf] at h
+  rw [ROTXR_B_exec w0 s1 st' c i hp hi h, fetch_state st s1 w0 hf]
+
+/-- ROTXR_W: one step consumes exactly the one instruction word (PC + 2) and leaves the Spec's registers and CCR -/
+theorem ROTXR_W_step (st s1 st' : Cpu) (w0 : BitVec 16) (c : BitVec 8) (i : Instr)
+    (hf : fetch st = .ok w0 s1) (hp : Form.pat .ROTXR_W w0 0 0 0 0 = true) (hi : instrOf .ROTXR_W w0 0 0 0 0 = some i)
+    (h : step st = .ok c st') :
+    st' = { st with regs := (specRegCcr i s1).1, ccr := (specRegCcr i s1).2, opc := st.pc &&& ~~~1#32, pc := st.pc + 2 } := by
+  rw [step_eq st s1 w0 hf] at h
+  rw [ROTXR_W_exec w0 s1 st' c i hp hi h, fetch_state st s1 w0 hf]
+
+/-- ROTXR_L: one step consumes exactly the one instruction word (PC + 2) and leaves the Spec's registers and CCR -/
+theorem ROTXR_L_step (st s1 st' : Cpu) (w0 : BitVec 16) (c : BitVec 8) (i : Instr)
+    (hf : fetch st = .ok w0 s1) (hp : Form.pat .ROTXR_L w0 0 0 0 0 = true) (hi : instrOf .ROTXR_L w0 0 0 0 0 = some i)
+    (h : step st = .ok c st') :
+    st' = { st with regs := (specRegCcr i s1).1, ccr := (specRegCcr i s1).2, opc := st.pc &&& ~~~1#32, pc := st.pc + 2 } := by
+  rw [step_eq st s1 w0 hf] at h
+  rw [ROTXR_L_exec w0 s1 st' c i hp hi h, fetch_state st s1 w0 hf]
+
+/-- NOT_B: one step consumes exactly the one instruction word (PC + 2) and leaves the Spec's registers and CCR -/
+theorem NOT_B_step (st s1 st' : Cpu) (w0 : BitVec 16) (c : BitVec 8) (i : Instr)
+    (hf : fetch st = .ok w0 s1) (hp : Form.pat .NOT_B w0 0 0 0 0 = true) (hi : instrOf .NOT_B w0 0 0 0 0 = some i)
+    (h : step st = .ok c st') :
+    st' = { st with regs := (specRegCcr i s1).1, ccr := (specRegCcr i s1).2, opc := st.pc &&& ~~~1#32, pc := st.pc + 2 } := by
+  rw [step_eq st s1 w0 hf] at h
+  rw [NOT_B_exec w0 s1 st' c i hp hi h, fetch_state st s1 w0 hf]
+
+/-- NOT_W: one step consumes exactly the one instruction word (PC + 2) and leaves the Spec's registers and CCR -/
+theorem NOT_W_step (st s1 st' : Cpu) (w0 : BitVec 16) (c : BitVec 8) (i : Instr)
+    (hf : fetch st = .ok w0 s1) (hp : Form.pat .NOT_W w0 0 0 0 0 = true) (hi : instrOf .NOT_W w0 0 0 0 0 = some i)
+    (h : step st = .ok c st') :
+    st' = { st with regs := (specRegCcr i s1).1, ccr := (specRegCcr i s1).2, opc := st.pc &&& ~~~1#32, pc := st.pc + 2 } := by
+  rw [step_eq st s1 w0 hf] at h
+  rw [NOT_W_exec w0 s1 st' c i hp hi h, fetch_state st s1 w0 hf]
+
+/-- NOT_L: one step consumes exactly the one instruction word (PC + 2) and leaves the Spec's registers and CCR -/
+theorem NOT_L_step (st s1 st' : Cpu) (w0 : BitVec 16) (c : BitVec 8) (i : Instr)
+    (hf : fetch st = .ok w0 s1) (hp : Form.pat .NOT_L w0 0 0 0 0 = true) (hi : instrOf .NOT_L w0 0 0 0 0 = some i)
+    (h : step st = .ok c st') :
+    st' = { st with regs := (specRegCcr i s1).1, ccr := (specRegCcr i s1).2, opc := st.pc &&& ~~~1#32, pc := st.pc + 2 } := by
+  rw [step_eq st s1 w0 hf] at h
+  rw [NOT_L_exec w0 s1 st' c i hp hi h, fetch_state st s1 w0 hf]
+
+/-- AND_B_RR: one step consumes exactly the one instruction word (PC + 2) and leaves the Spec's registers and CCR -/
+theorem AND_B_RR_step (st s1 st' : Cpu) (w0 : BitVec 16) (c : BitVec 8) (i : Instr)
+    (hf : fetch st = .ok w0 s1) (hp : Form.pat .AND_B_RR w0 0 0 0 0 = true) (hi : instrOf .AND_B_RR w0 0 0 0 0 = some i)
+    (h : step st = .ok c st') :
+    st' = { st with regs := (specRegCcr i s1).1, ccr := (specRegCcr i s1).2, opc := st.pc &&& ~~~1#32, pc := st.pc + 2 } := by
+  rw [step_eq st s1 w0 hf] at h
+  rw [AND_B_RR_exec w0 s1 st' c i hp hi h, fetch_state st s1 w0 hf]
+
+/-- AND_W_RR: one step consumes exactly the one instruction word (PC + 2) and leaves the Spec's registers and CCR -/
+theorem AND_W_RR_step (st s1 st' : Cpu) (w0 : BitVec 16) (c : BitVec 8) (i : Instr)
+    (hf : fetch st = .ok w0 s1) (hp : Form.pat .AND_W_RR w0 0 0 0 0 = true) (hi : instrOf .AND_W_RR w0 0 0 0 0 = some i)
+    (h : step st = .ok c st') :
+    st' = { st with regs := (specRegCcr i s1).1, ccr := (specRegCcr i s1).2, opc := st.pc &&& ~~~1#32, pc := st.pc + 2 } := by
+  rw [step_eq st s1 w0 hf] at h
+  rw [AND_W_RR_exec w0 s1 st' c i hp hi h, fetch_state st s1 w0 hf]
+
+/-- AND_B_IMM: one step consumes exactly the one instruction word (PC + 2) and leaves the Spec's registers and CCR -/
+theorem AND_B_IMM_step (st s1 st' : Cpu) (w0 : BitVec 16) (c : BitVec 8) (i : Instr)
+    (hf : fetch st = .ok w0 s1) (hp : Form.pat .AND_B_IMM w0 0 0 0 0 = true) (hi : instrOf .AND_B_IMM w0 0 0 0 0 = some i)
+    (h : step st = .ok c st') :
+    st' = { st with regs := (specRegCcr i s1).1, ccr := (specRegCcr i s1).2, opc := st.pc &&& ~~~1#32, pc := st.pc + 2 } := by
+  rw [step_eq st s1 w0 hf] at h
+  rw [AND_B_IMM_exec w0 s1 st' c i hp hi h, fetch_state st s1 w0 hf]
+
+/-- OR_B_RR: one step consumes exactly the one instruction word (PC + 2) and leaves the Spec's registers and CCR -/
+theorem OR_B_RR_step (st s1 st' : Cpu) (w0 : BitVec 16) (c : BitVec 8) (i : Instr)
+    (hf : fetch st = .ok w0 s1) (hp : Form.pat .OR_B_RR w0 0 0 0 0 = true) (hi : instrOf .OR_B_RR w0 0 0 0 0 = some i)
+    (h : step st = .ok c st') :
+    st' = { st with regs := (specRegCcr i s1).1, ccr := (specRegCcr i s1).2, opc := st.pc &&& ~~~1#32, pc := st.pc + 2 } := by
+  rw [step_eq st s1 w0 hf] at h
+  rw [OR_B_RR_exec w0 s1 st' c i hp hi h, fetch_state st s1 w0 hf]
+
+/-- OR_W_RR: one step consumes exactly the one instruction word (PC + 2) and leaves the Spec's registers and CCR -/
+theorem OR_W_RR_step (st s1 st' : Cpu) (w0 : BitVec 16) (c : BitVec 8) (i : Instr)
+    (hf : fetch st = .ok w0 s1) (hp : Form.pat .OR_W_RR w0 0 0 0 0 = true) (hi : instrOf .OR_W_RR w0 0 0 0 0 = some i)
+    (h : step st = .ok c st') :
+    st' = { st with regs := (specRegCcr i s1).1, ccr := (specRegCcr i s1).2, opc := st.pc &&& ~~~1#32, pc := st.pc + 2 } := by
+  rw [step_eq st s1 w0 hf] at h
+  rw [OR_W_RR_exec w0 s1 st' c i hp hi h, fetch_state st s1 w0 hf]
+
+/-- OR_B_IMM: one step consumes exactly the one instruction word (PC + 2) and leaves the Spec's registers and CCR -/
+theorem OR_B_IMM_step (st s1 st' : Cpu) (w0 : BitVec 16) (c : BitVec 8) (i : Instr)
+    (hf : fetch st = .ok w0 s1) (hp : Form.pat .OR_B_IMM w0 0 0 0 0 = true) (hi : instrOf .OR_B_IMM w0 0 0 0 0 = some i)
+    (h : step st = .ok c st') :
+    st' = { st with regs := (specRegCcr i s1).1, ccr := (specRegCcr i s1).2, opc := st.pc &&& ~~~1#32, pc := st.pc + 2 } := by
+  rw [step_eq st s1 w0 hf] at h
+  rw [OR_B_IMM_exec w0 s1 st' c i hp hi h, fetch_state st s1 w0 hf]
+
+/-- XOR_B_RR: one step consumes exactly the one instruction word (PC + 2) and leaves the Spec's registers and CCR -/
+theorem XOR_B_RR_step (st s1 st' : Cpu) (w0 : BitVec 16) (c : BitVec 8) (i : Instr)
+    (hf : fetch st = .ok w0 s1) (hp : Form.pat .XOR_B_RR w0 0 0 0 0 = true) (hi : instrOf .XOR_B_RR w0 0 0 0 0 = some i)
+    (h : step st = .ok c st') :
+    st' = { st with regs := (specRegCcr i s1).1, ccr := (specRegCcr i s1).2, opc := st.pc &&& ~~~1#32, pc := st.pc + 2 } := by
+  rw [step_eq st s1 w0 hf] at h
+  rw [XOR_B_RR_exec w0 s1 st' c i hp hi h, fetch_state st s1 w0 hf]
+
+/-- XOR_W_RR: one step consumes exactly the one instruction word (PC + 2) and leaves the Spec's registers and CCR -/
+theorem XOR_W_RR_step (st s1 st' : Cpu) (w0 : BitVec 16) (c : BitVec 8) (i : Instr)
+    (hf : fetch st = .ok w0 s1) (hp : Form.pat .XOR_W_RR w0 0 0 0 0 = true) (hi : instrOf .XOR_W_RR w0 0 0 0 0 = some i)
+    (h : step st = .ok c st') :
+    st' = { st with regs := (specRegCcr i s1).1, ccr := (specRegCcr i s1).2, opc := st.pc &&& ~~~1#32, pc := st.pc + 2 } := by
+  rw [step_eq st s1 w0 hf] at h
+  rw [XOR_W_RR_exec w0 s1 st' c i hp hi h, fetch_state st s1 w0 hf]
+
+/-- XOR_B_IMM: one step consumes exactly the one instruction word (PC + 2) and leaves the Spec's registers and CCR -/
+theorem XOR_B_IMM_step (st s1 st' : Cpu) (w0 : BitVec 16) (c : BitVec 8) (i : Instr)
+    (hf : fetch st = .ok w0 s1) (hp : Form.pat .XOR_B_IMM w0 0 0 0 0 = true) (hi : instrOf .XOR_B_IMM w0 0 0 0 0 = some i)
+    (h : step st = .ok c st') :
+    st' = { st with regs := (specRegCcr i s1).1, ccr := (specRegCcr i s1).2, opc := st.pc &&& ~~~1#32, pc := st.pc + 2 } := by
+  rw [step_eq st s1 w0 hf] at h
+  rw [XOR_B_IMM_exec w0 s1 st' c i hp hi h, fetch_state st s1 w0 hf]
+
+/-- BSET_RR: one step consumes exactly the one instruction word (PC + 2) and leaves the Spec's registers and CCR -/
+theorem BSET_RR_step (st s1 st' : Cpu) (w0 : BitVec 16) (c : BitVec 8) (i : Instr)
+    (hf : fetch st = .ok w0 s1) (hp : Form.pat .BSET_RR w0 0 0 0 0 = true) (hi : instrOf .BSET_RR w0 0 0 0 0 = some i)
+    (h : step st = .ok c st') :
+    st' = { st with regs := (specRegCcr i s1).1, ccr := (specRegCcr i s1).2, opc := st.pc &&& ~~~1#32, pc := st.pc + 2 } := by
+  rw [step_eq st s1 w0 hf] at h
+  rw [BSET_RR_exec w0 s1 st' c i hp hi h, fetch_state st s1 w0 hf]
+
+/-- BNOT_RR: one step consumes exactly the one instruction word (PC + 2) and leaves the Spec's registers and CCR -/
+theorem BNOT_RR_step (st s1 st' : Cpu) (w0 : BitVec 16) (c : BitVec 8) (i : Instr)
+    (hf : fetch st = .ok w0 s1) (hp : Form.pat .BNOT_RR w0 0 0 0 0 = true) (hi : instrOf .BNOT_RR w0 0 0 0 0 = some i)
+    (h : step st = .ok c st') :
+    st' = { st with regs := (specRegCcr i s1).1, ccr := (specRegCcr i s1).2, opc := st.pc &&& ~~~1#32, pc := st.pc + 2 } := by
+  rw [step_eq st s1 w0 hf] at h
+  rw [BNOT_RR_exec w0 s1 st' c i hp hi h, fetch_state st s1 w0 hf]
+
+/-- BCLR_RR: one step consumes exactly the one instruction word (PC + 2) and leaves the Spec's registers and CCR -/
+theorem BCLR_RR_step (st s1 st' : Cpu) (w0 : BitVec 16) (c : BitVec 8) (i : Instr)
+    (hf : fetch st = .ok w0 s1) (hp : Form.pat .BCLR_RR w0 0 0 0 0 = true) (hi : instrOf .BCLR_RR w0 0 0 0 0 = some i)
+    (h : step st = .ok c st') :
+    st' = { st with regs := (specRegCcr i s1).1, ccr := (specRegCcr i s1).2, opc := st.pc &&& ~~~1#32, pc := st.pc + 2 } := by
+  rw [step_eq st s1 w0 hf] at h
+  rw [BCLR_RR_exec w0 s1 st' c i hp hi h, fetch_state st s1 w0 hf]
+
+/-- BTST_RR: one step consumes exactly the one instruction word (PC + 2) and leaves the Spec's registers and CCR -/
+theorem BTST_RR_step (st s1 st' : Cpu) (w0 : BitVec 16) (c : BitVec 8) (i : Instr)
+    (hf : fetch st = .ok w0 s1) (hp : Form.pat .BTST_RR w0 0 0 0 0 = true) (hi : instrOf .BTST_RR w0 0 0 0 0 = some i)
+    (h : step st = .ok c st') :
+    st' = { st with regs := (specRegCcr i s1).1, ccr := (specRegCcr i s1).2, opc := st.pc &&& ~~~1#32, pc := st.pc + 2 } := by
+  rw [step_eq st s1 w0 hf] at h
+  rw [BTST_RR_exec w0 s1 st' c i hp hi h, fetch_state st s1 w0 hf]
+
+/-- BST_R: one step consumes exactly the one instruction word (PC + 2) and leaves the Spec's registers and CCR -/
+theorem BST_R_step (st s1 st' : Cpu) (w0 : BitVec 16) (c : BitVec 8) (i : Instr)
+    (hf : fetch st = .ok w0 s1) (hp : Form.pat .BST_R w0 0 0 0 0 = true) (hi : instrOf .BST_R w0 0 0 0 0 = some i)
+    (h : step st = .ok c st') :
+    st' = { st with regs := (specRegCcr i s1).1, ccr := (specRegCcr i s1).2, opc := st.pc &&& ~~~1#32, pc := st.pc + 2 } := by
+  rw [step_eq st s1 w0 hf] at h
+  rw [BST_R_exec w0 s1 st' c i hp hi h, fetch_state st s1 w0 hf]
+
+/-- BIST_R: one step consumes exactly the one instruction word (PC + 2) and leaves the Spec's registers and CCR -/
+theorem BIST_R_step (st s1 st' : Cpu) (w0 : BitVec 16) (c : BitVec 8) (i : Instr)
+    (hf : fetch st = .ok w0 s1) (hp : Form.pat .BIST_R w0 0 0 0 0 = true) (hi : instrOf .BIST_R w0 0 0 0 0 = some i)
+    (h : step st = .ok c st') :
+    st' = { st with regs := (specRegCcr i s1).1, ccr := (specRegCcr i s1).2, opc := st.pc &&& ~~~1#32, pc := st.pc + 2 } := by
+  rw [step_eq st s1 w0 hf] at h
+  rw [BIST_R_exec w0 s1 st' c i hp hi h, fetch_state st s1 w0 hf]
+
+/-- BSET_I: one step consumes exactly the one instruction word (PC + 2) and leaves the Spec's registers and CCR -/
+theorem BSET_I_step (st s1 st' : Cpu) (w0 : BitVec 16) (c : BitVec 8) (i : Instr)
+    (hf : fetch st = .ok w0 s1) (hp : Form.pat .BSET_I w0 0 0 0 0 = true) (hi : instrOf .BSET_I w0 0 0 0 0 = some i)
+    (h : step st = .ok c st') :
+    st' = { st with regs := (specRegCcr i s1).1, ccr := (specRegCcr i s1).2, opc := st.pc &&& ~~~1#32, pc := st.pc + 2 } := by
+  rw [step_eq st s1 w0 hf] at h
+  rw [BSET_I_exec w0 s1 st' c i hp hi h, fetch_state st s1 w0 hf]
+
+/-- BNOT_I: one step consumes exactly the one instruction word (PC + 2) and leaves the Spec's registers and CCR -/
+theorem BNOT_I_step (st s1 st' : Cpu) (w0 : BitVec 16) (c : BitVec 8) (i : Instr)
+    (hf : fetch st = .ok w0 s1) (hp : Form.pat .BNOT_I w0 0 0 0 0 = true) (hi : instrOf .BNOT_I w0 0 0 0 0 = some i)
+    (h : step st = .ok c st') :
+    st' = { st with regs := (specRegCcr i s1).1, ccr := (specRegCcr i s1).2, opc := st.pc &&& ~~~1#32, pc := st.pc + 2 } := by
+  rw [step_eq st s1 w0 hf] at h
+  rw [BNOT_I_exec w0 s1 st' c i hp hi h, fetch_state st s1 w0 hf]
+
+/-- BCLR_I: one step consumes exactly the one instruction word (PC + 2) and leaves the Spec's registers and CCR -/
+theorem BCLR_I_step (st s1 st' : Cpu) (w0 : BitVec 16) (c : BitVec 8) (i : Instr)
+    (hf : fetch st = .ok w0 s1) (hp : Form.pat .BCLR_I w0 0 0 0 0 = true) (hi : instrOf .BCLR_I w0 0 0 0 0 = some i)
+    (h : step st = .ok c st') :
+    st' = { st with regs := (specRegCcr i s1).1, ccr := (specRegCcr i s1).2, opc := st.pc &&& ~~~1#32, pc := st.pc + 2 } := by
+  rw [step_eq st s1 w0 hf] at h
+  rw [BCLR_I_exec w0 s1 st' c i hp hi h, fetch_state st s1 w0 hf]
+
+/-- BTST_I: one step consumes exactly the one instruction word (PC + 2) and leaves the Spec's registers and CCR -/
+theorem BTST_I_step (st s1 st' : Cpu) (w0 : BitVec 16) (c : BitVec 8) (i : Instr)
+    (hf : fetch st = .ok w0 s1) (hp : Form.pat .BTST_I w0 0 0 0 0 = true) (hi : instrOf .BTST_I w0 0 0 0 0 = some i)
+    (h : step st = .ok c st') :
+    st' = { st with regs := (specRegCcr i s1).1, ccr := (specRegCcr i s1).2, opc := st.pc &&& ~~~1#32, pc := st.pc + 2 } := by
+  rw [step_eq st s1 w0 hf] at h
+  rw [BTST_I_exec w0 s1 st' c i hp hi h, fetch_state st s1 w0 hf]
+
+/-- BOR_R: one step consumes exactly the one instruction word (PC + 2) and leaves the Spec's registers and CCR -/
+theorem BOR_R_step (st s1 st' : Cpu) (w0 : BitVec 16) (c : BitVec 8) (i : Instr)
+    (hf : fetch st = .ok w0 s1) (hp : Form.pat .BOR_R w0 0 0 0 0 = true) (hi : instrOf .BOR_R w0 0 0 0 0 = some i)
+    (h : step st = .ok c st') :
+    st' = { st with regs := (specRegCcr i s1).1, ccr := (specRegCcr i s1).2, opc := st.pc &&& ~~~1#32, pc := st.pc + 2 } := by
+  rw [step_eq st s1 w0 hf] at h
+  rw [BOR_R_exec w0 s1 st' c i hp hi h, fetch_state st s1 w0 hf]
+
+/-- BIOR_R: one step consumes exactly the one instruction word (PC + 2) and leaves the Spec's registers and CCR -/
+theorem BIOR_R_step (st s1 st' : Cpu) (w0 : BitVec 16) (c : BitVec 8) (i : Instr)
+    (hf : fetch st = .ok w0 s1) (hp : Form.pat .BIOR_R w0 0 0 0 0 = true) (hi : instrOf .BIOR_R w0 0 0 0 0 = some i)
+    (h : step st = .ok c st') :
+    st' = { st with regs := (specRegCcr i s1).1, ccr := (specRegCcr i s1).2, opc := st.pc &&& ~~~1#32, pc := st.pc + 2 } := by
+  rw [step_eq st s1 w0 hf] at h
+  rw [BIOR_R_exec w0 s1 st' c i hp hi h, fetch_state st s1 w0 hf]
+
+/-- BXOR_R: one step consumes exactly the one instruction word (PC + 2) and leaves the Spec's registers and CCR -/
+theorem BXOR_R_step (st s1 st' : Cpu) (w0 : BitVec 16) (c : BitVec 8) (i : Instr)
+    (hf : fetch st = .ok w0 s1) (hp : Form.pat .BXOR_R w0 0 0 0 0 = true) (hi : instrOf .BXOR_R w0 0 0 0 0 = some i)
+    (h : step st = .ok c st') :
+    st' = { st with regs := (specRegCcr i s1).1, ccr := (specRegCcr i s1).2, opc := st.pc &&& ~~~1#32, pc := st.pc + 2 } := by
+  rw [step_eq st s1 w0 hf] at h
+  rw [BXOR_R_exec w0 s1 st' c i hp hi h, fetch_state st s1 w0 hf]
+
+/-- BIXOR_R: one step consumes exactly the one instruction word (PC + 2) and leaves the Spec's registers and CCR -/
+theorem BIXOR_R_step (st s1 st' : Cpu) (w0 : BitVec 16) (c : BitVec 8) (i : Instr)
+    (hf : fetch st = .ok w0 s1) (hp : Form.pat .BIXOR_R w0 0 0 0 0 = true) (hi : instrOf .BIXOR_R w0 0 0 0 0 = some i)
+    (h : step st = .ok c st') :
+    st' = { st with regs := (specRegCcr i s1).1, ccr := (specRegCcr i s1).2, opc := st.pc &&& ~~~1#32, pc := st.pc + 2 } := by
+  rw [step_eq st s1 w0 hf] at h
+  rw [BIXOR_R_exec w0 s1 st' c i hp hi h, fetch_state st s1 w0 hf]
+
+/-- BAND_R: one step consumes exactly the one instruction word (PC + 2) and leaves the Spec's registers and CCR -/
+theorem BAND_R_step (st s1 st' : Cpu) (w0 : BitVec 16) (c : BitVec 8) (i : Instr)
+    (hf : fetch st = .ok w0 s1) (hp : Form.pat .BAND_R w0 0 0 0 0 = true) (hi : instrOf .BAND_R w0 0 0 0 0 = some i)
+    (h : step st = .ok c st') :
+    st' = { st with regs := (specRegCcr i s1).1, ccr := (specRegCcr i s1).2, opc := st.pc &&& ~~~1#32, pc := st.pc + 2 } := by
+  rw [step_eq st s1 w0 hf] at h
+  rw [BAND_R_exec w0 s1 st' c i hp hi h, fetch_state st s1 w0 hf]
+
+/-- BIAND_R: one step consumes exactly the one instruction word (PC + 2) and leaves the Spec's registers and CCR -/
+theorem BIAND_R_step (st s1 st' : Cpu) (w0 : BitVec 16) (c : BitVec 8) (i : Instr)
+    (hf : fetch st = .ok w0 s1) (hp : Form.pat .BIAND_R w0 0 0 0 0 = true) (hi : instrOf .BIAND_R w0 0 0 0 0 = some i)
+    (h : step st = .ok c st') :
+    st' = { st with regs := (specRegCcr i s1).1, ccr := (specRegCcr i s1).2, opc := st.pc &&& ~~~1#32, pc := st.pc + 2 } := by
+  rw [step_eq st s1 w0 hf] at h
+  rw [BIAND_R_exec w0 s1 st' c i hp hi h, fetch_state st s1 w0 hf]
+
+/-- BLD_R: one step consumes exactly the one instruction word (PC + 2) and leaves the Spec's registers and CCR -/
+theorem BLD_R_step (st s1 st' : Cpu) (w0 : BitVec 16) (c : BitVec 8) (i : Instr)
+    (hf : fetch st = .ok w0 s1) (hp : Form.pat .BLD_R w0 0 0 0 0 = true) (hi : instrOf .BLD_R w0 0 0 0 0 = some i)
+    (h : step st = .ok c st') :
+    st' = { st with regs := (specRegCcr i s1).1, ccr := (specRegCcr i s1).2, opc := st.pc &&& ~~~1#32, pc := st.pc + 2 } := by
+  rw [step_eq st s1 w0 hf] at h
+  rw [BLD_R_exec w0 s1 st' c i hp hi h, fetch_state st s1 w0 hf]
+
+/-- BILD_R: one step consumes exactly the one instruction word (PC + 2) and leaves the Spec's registers and CCR -/
+theorem BILD_R_step (st s1 st' : Cpu) (w0 : BitVec 16) (c : BitVec 8) (i : Instr)
+    (hf : fetch st = .ok w0 s1) (hp : Form.pat .BILD_R w0 0 0 0 0 = true) (hi : instrOf .BILD_R w0 0 0 0 0 = some i)
+    (h : step st = .ok c st') :
+    st' = { st with regs := (specRegCcr i s1).1, ccr := (specRegCcr i s1).2, opc := st.pc &&& ~~~1#32, pc := st.pc + 2 } := by
+  rw [step_eq st s1 w0 hf] at h
+  rw [BILD_R_exec w0 s1 st' c i hp hi h, fetch_state st s1 w0 hf]
+
 
 end H8.Props.C07E
